@@ -96,7 +96,7 @@ def seam_violations(ex, prop):
     """Lost seams are harness failures (raise), never passes."""
     if ex.world.get("solver", "homotopy") != "homotopy":
         return
-    if ex.clock.n < 2 and ex.result is not None:
+    if ex.clock.n < 1 and ex.result is not None:
         raise RuntimeError("clock seam lost: %d clock reads in a completed solve" % ex.clock.n)
     if ex.result is not None and ex.result.iterations > 0 and not ex.trials:
         raise RuntimeError("trial-log seam lost: iterations=%d but no _compute_step call seen" % ex.result.iterations)
